@@ -207,8 +207,9 @@ def group_case(sh, case, driver='group'):
     try:
         with quiet():
             bg = BycycleGroup(thresholds=copy.deepcopy(case['thr']))
-            bg.fit(np.array(sigs, copy=True), case['fs'], tuple(case['f_range']), axis=0, n_jobs=1)
-            old = [m.df_features['is_burst'].to_numpy().astype(bool).copy() for m in bg.models]
+            bg.fit(np.array(sigs, copy=True), case['fs'], tuple(case['f_range']), axis=(0, 1) if sigs.ndim == 3 else 0, n_jobs=1)
+            models = [m for r in bg.models for m in (r if isinstance(r, list) else [r])]
+            old = [m.df_features['is_burst'].to_numpy().astype(bool).copy() for m in models]
     except Exception as e:
         # the fit itself is not this property's business (a row without enough oscillations is outside the domain)
         sh.note('group_fit_raised:' + type(e).__name__)
@@ -227,11 +228,13 @@ def group_case(sh, case, driver='group'):
         vs.append({'mechanism': attach.exc_mechanism(e), 'message': 'BycycleGroup.recompute_edges raised %r' % (e,)})
     vs += [v for v in attach.take_violations() if v['property'] in (PROP, '_monitor')]
     if not vs:
-        if attach.COUNTS['eval:recompute_edges'] - before != len(sigs):
+        n_models = int(np.prod(sigs.shape[:-1]))
+        if attach.COUNTS['eval:recompute_edges'] - before != n_models:
             vs.append({'mechanism': 'group-models-not-all-recomputed',
-                       'message': '%d rows, %d edge recomputations observed' % (len(sigs), attach.COUNTS['eval:recompute_edges'] - before)})
+                       'message': '%d signals (array %s), %d edge recomputations observed'
+                                  % (n_models, list(sigs.shape[:-1]), attach.COUNTS['eval:recompute_edges'] - before)})
         elif case['reduction'] in (None, 0, 0.0):
-            for i, m in enumerate(bg.models):
+            for i, m in enumerate(models):
                 new = m.df_features['is_burst'].to_numpy().astype(bool)
                 if np.any(old[i] & ~new):
                     vs.append({'mechanism': 'burst-cycle-lost', 'message': 'group model %d lost a burst cycle with unchanged thresholds' % i})
@@ -239,6 +242,7 @@ def group_case(sh, case, driver='group'):
     for v in vs:
         sh.violate(case, v, driver)
     sh.note('group_recompute_runs')
+    sh.note('group_recompute:%dd' % sigs.ndim)
     sh.case_done(case, True, sample={'group_rows': len(sigs), 'thr': case['thr'], 'reduction': case['reduction']})
 
 
@@ -259,6 +263,11 @@ def run(sh):
         if it % 10 == 0:
             rows = [gen.gen_signal(rng, fs, lo, hi, 3.0, 'bursty')[0][:int(3 * fs) - 2] for _ in range(3)]
             guarded(sh, group_case, sh, {'sigs': np.array(rows), 'fs': fs, 'f_range': (lo, hi), 'thr': thr, 'reduction': case['reduction']})
+            # ... and a 3-D group whose first two extents differ
+            shp = [(2, 3), (3, 2), (1, 3), (3, 1)][(it // 10 + sh.shard) % 4]
+            rows3 = [gen.gen_signal(rng, fs, lo, hi, 3.0, 'bursty')[0][:int(3 * fs) - 2] + 1e-3 * j for j in range(shp[0] * shp[1])]
+            guarded(sh, group_case, sh, {'sigs': np.array(rows3, dtype=float).reshape(shp + (-1,)), 'fs': fs, 'f_range': (lo, hi), 'thr': thr,
+                                         'reduction': case['reduction']})
     for k, v in attach.COUNTS.items():
         if k.startswith('C16:'):
             sh.classes[k[4:]] = v
